@@ -6,6 +6,7 @@ import NodisVerif.Proofs.C02
 import NodisVerif.Proofs.C02Api
 import NodisVerif.Proofs.C02Rotate
 import NodisVerif.Proofs.LinkedListRun
+import NodisVerif.Proofs.LinkedListTotal
 /-
   C02 — lists behave as exact sequences under every push/pop/index/trim command.
 
@@ -829,6 +830,34 @@ theorem runOk_of_no_minInt64 (ops : List Op) (h : ∀ v, Op.lrem minInt64 v ∉ 
       exact absurd (List.mem_cons_self ..) (h v)
     | _ => trivial
 
+/-- unconditionally (also for LRem MinInt64 on more than 2^63 nodes, where the sequence model is left):
+    under `Inv` every method returns `ok` and `Inv` holds again — no walk runs out of fuel, no nil is
+    dereferenced — except SetValue on bytes whose decoding loop panics in Go (slice bounds out of range),
+    which is exactly when the sequence-level decoder `Codec.decodeList` fails -/
+theorem ptr_step_total (l : PList) (h : Inv l) (op : Op) :
+    (∃ l' r, stepP l op = .ok (l', r) ∧ Inv l') ∨
+    (∃ b, op = .setValue b ∧ stepP l op = .panic ∧ stepD (absL l) op = none) := by
+  obtain ⟨c, hc⟩ := h
+  rcases step_total l c hc op with ⟨l', c', r, e, hi⟩ | hp
+  · exact Or.inl ⟨l', r, e, ⟨c', hi⟩⟩
+  · exact Or.inr hp
+
+/-- the decoding loop of SetValue never uses up `len(bytes) + 1` units of fuel -/
+theorem ptr_setValue_fuel (l : PList) (h : Inv l) (b : Bytes) : setValue b l (b.length + 1) ≠ .fuel := by
+  obtain ⟨c, hc⟩ := h
+  exact setValue_no_fuel _ b l c hc (by omega)
+
+/-- every state reachable from the empty list by any finite sequence of methods satisfies `Inv`, its
+    backward walk is the reverse of its forward walk, and no run ever stops for lack of fuel
+    (no side condition at all) -/
+theorem run_inv_total (ops : List Op) :
+    runP LinkedList.empty ops ≠ .fuel ∧
+    ∀ l' rs, runP LinkedList.empty ops = .ok (l', rs) → Inv l' ∧ bwd l' = (fwd l').reverse := by
+  obtain ⟨h1, h2⟩ := run_total ops LinkedList.empty [] empty_invC
+  refine ⟨h1, fun l' rs h => ?_⟩
+  have hi : Inv l' := h2 l' rs h
+  exact ⟨hi, bwd_eq_reverse_fwd l' hi⟩
+
 /-- non-vacuity: a concrete heap with garbage (node 1 was unlinked and still points into the chain)
     satisfying `Inv`, with chain 3 → 0 → 2 -/
 def demoPtr : PList :=
@@ -847,6 +876,17 @@ example : (runP LinkedList.empty [.rpush [[97], [120], [97]], .lpush [[98]], .lr
     RunOk DsList.empty [.rpush [[97], [120], [97]], .lpush [[98]], .lrem 1 [120]] ∧
     (runD DsList.empty [.rpush [[97], [120], [97]], .lpush [[98]], .lrem 1 [120]]).isSome :=
   ⟨by decide, runOk_of_no_minInt64 _ (by intro v hm; simp [minInt64] at hm) _, by decide⟩
+
+/-- the side condition of `ptr_lrem` / `OpOk` on the same state, for the one count that needs it -/
+example : (minInt64 = minInt64 → ((abs demoPtr).length : Int) ≤ 9223372036854775808) ∧
+    OpOk (absL demoPtr) (.lrem minInt64 [97]) :=
+  ⟨fun _ => by decide, fun _ => by decide⟩
+
+/-- the hypothesis of `ptr_setValue` on the same state: two well-formed length-prefixed elements -/
+example : (Codec.decodeList [2, 98, 4, 99, 99] (absL demoPtr) 6).isSome := by decide
+
+/-- … and of `ptr_setValue_fails`: a length prefix that points past the end of the bytes -/
+example : Codec.decodeList [6, 98] (absL demoPtr) 3 = none := by decide
 
 end Pointer
 
